@@ -14,6 +14,10 @@ use vmodel::util::{catch, fresh_spans, inside, range};
 use vmodel::val::Val;
 use vmodel::{ensure, fail};
 
+pub mod enums;
+pub mod magic;
+pub mod partition;
+pub mod sugg;
 pub mod render;
 pub use render::*;
 
@@ -118,7 +122,7 @@ pub fn mismatch_sig(want: &[Leaf], got: &[OLeaf]) -> String {
     }
 }
 
-fn erase_spans(v: &Val) -> Val {
+pub fn erase_spans(v: &Val) -> Val {
     match v {
         Val::Spanned(x, _) => Val::Spanned(Box::new(erase_spans(x)), (0, 0)),
         Val::Some(x) => Val::Some(Box::new(erase_spans(x))),
@@ -345,7 +349,7 @@ pub fn check_struct_case(ctx: &Ctx, reg: &Reg, s: &Spec, bytes: &[u8], prop: &st
     let nodes = gen::gen_items(&w, s, &mut d, mode, 0, &mut st);
     let lay = gen_layout(s, nodes.len(), &mut d);
     let o = run_case(reg, s, &nodes, &lay)?;
-    ctx.set_render(json!({"receiver": s.name(), "trait": s.tr.name(), "input": o.text, "spec": s}));
+    ctx.set_render(json!({"receiver": s.name(), "trait": s.tr.name(), "input": o.text, "declaration": emit_short(s), "specs": enums::deps_closure(reg, s)}));
     classify_stats(ctx, s, &st, &nodes);
     ctx.sample(|| json!({"receiver": emit_short(s), "input": o.text, "model": format!("{:?}", o.want).chars().take(300).collect::<String>()}));
     match prop {
@@ -456,7 +460,7 @@ pub fn check_struct_case(ctx: &Ctx, reg: &Reg, s: &Spec, bytes: &[u8], prop: &st
 }
 
 /// The first differing field between two struct values, with a coarse reason.
-fn diff_field(want: &Val, got: &Val) -> (String, String) {
+pub fn diff_field(want: &Val, got: &Val) -> (String, String) {
     if let (Val::Struct(_, a), Val::Struct(_, b)) = (want, got) {
         for ((n, x), (_, y)) in a.iter().zip(b.iter()) {
             if x != y {
@@ -482,6 +486,10 @@ pub fn main(specs_json: &str, registry: Vec<Entry>) {
     let reg = Reg { specs, entries: registry.into_iter().map(|e| (e.id, e)).collect() };
     let ok = match args.sub.as_str() {
         "c01" | "c02" | "c03b" => run_struct_prop(&args, &reg),
+        "c09" | "c03-enums" => enums::run(&args, &reg),
+        "c16" | "c03-body" | "c08-forward" => magic::run(&args, &reg),
+        "c08" => partition::run(&args, &reg),
+        "c17" => sugg::run(&args, &reg),
         other => {
             eprintln!("unknown subcommand {}", other);
             std::process::exit(2);
